@@ -7,6 +7,8 @@ use crate::hist::*;
 pub fn prop() -> HistProp {
     let mut opts = HistOpts::new(Profile::Typed);
     opts.errors = true;
+    // setters too: a missing entry in an existing directory is a not-found for them as well
+    opts.with_time = true;
     HistProp {
         opts,
         cfgs: || cfg_strategy(2),
